@@ -112,7 +112,11 @@ fn describe(r: &Reader) -> Value {
                 let mut f: Vec<String> = vr.active_manifest().map(|am| am.failure().iter().map(|s| s.code().to_string()).collect()).unwrap_or_default();
                 if let Some(ds) = vr.ingredient_deltas() { for d in ds { f.extend(d.validation_deltas().failure().iter().map(|s| s.code().to_string())); } }
                 f
-            }).unwrap_or_else(|| ing.validation_status().map(|vs| vs.iter().filter(|s| !s.passed()).map(|s| s.code().to_string()).collect()).unwrap_or_default());
+            }).unwrap_or_else(|| ing.validation_status().map(|vs| vs.iter()
+                // (a status read back from a legacy ingredient assertion has lost its kind -- passed() says true for every one --
+                // so the code decides)
+                .filter(|s| !s.passed() || format!("{:?}", c2pa::validation_results::validation_codes::log_kind(s.code())) == "Failure")
+                .map(|s| s.code().to_string()).collect()).unwrap_or_default());
             ings.push(json!({"title": ing.title(), "rel": format!("{:?}", ing.relationship()), "has_manifest": ing.active_manifest().is_some(), "ok": fails.is_empty(), "failures": fails,
                 "active_title": ing.active_manifest().and_then(|l| r.get_manifest(l)).and_then(|m| m.title().map(|s| s.to_string()))}));
         }
